@@ -2,7 +2,7 @@
    Theorems only, about the topic model Sys/Topic.v (one group topic; the self/search
    and system topics are outside this model, see DESIGN.md section 7). *)
 From Coq Require Import ZArith NArith List Bool.
-From Tinode Require Import Base.Util Pure.Acs Sys.Topic Sys.TopicTac Sys.TopicFrame Sys.TopicNum Sys.TopicOut Sys.TopicNumThm Sys.TopicPub Sys.TopicMarks Sys.TopicMeta Sys.TopicCoh.
+From Tinode Require Import Base.Util Pure.Acs Sys.Topic Sys.TopicTac Sys.TopicFrame Sys.TopicNum Sys.TopicOut Sys.TopicNumThm Sys.TopicPub Sys.TopicMarks Sys.TopicMeta Sys.TopicCoh Sys.TopicLife Sys.TopicLifeProofs.
 Import ListNotations.
 Open Scope Z_scope.
 
@@ -85,6 +85,74 @@ Theorem c03_failed_change_keeps_decision : forall x fo, cohx x -> safe_step sm x
   | _, _ => True
   end.
 Proof. exact (grant_kept_decision_kept dr nr sm). Qed.
+
+(* ---- topic states and topic kinds (model Sys/TopicLife.v around the group-topic model) ---- *)
+
+(* [xaccepts sm x sid]: no delete of the topic is in flight (the hub is not inside store.Topics.Delete
+   for it), the topic is not read-only (suspended), the session is attached and the author's
+   subscription has W in want and given. *)
+Theorem c03x_accepted_iff : forall x sid content noecho, inv_num (xb x) ->
+  ((exists n, first_reply (snd (xstep dr nr sm x (EBase NoFault (OPub sid content noecho)))) sid = Some (Ctrl 202 [(P_seq, n)]))
+   <-> xaccepts sm x sid = true).
+Proof. exact (xaccept_iff dr nr sm). Qed.
+
+(* every history of requests, deletions in two halves, suspensions, faults and crashes reaches a state
+   satisfying the invariants the theorems need *)
+Theorem c03x_reachable : forall s h, fresh s -> xinv (fst (xrun dr nr sm (xinit s) h)).
+Proof. intros s h F. apply xinv_xrun. apply xinv_init. exact F. Qed.
+
+Theorem c03x_accepted_iff_history : forall s h sid content noecho, fresh s ->
+  let x := fst (xrun dr nr sm (xinit s) h) in
+  ((exists n, first_reply (snd (xstep dr nr sm x (EBase NoFault (OPub sid content noecho)))) sid = Some (Ctrl 202 [(P_seq, n)]))
+   <-> xaccepts sm x sid = true).
+Proof. intros s h sid content noecho F x. apply c03x_accepted_iff. apply (c03x_reachable s h F). Qed.
+
+(* rejected, for any fault plan: exactly one error reply to the sender, the stores (topic rows, accounts,
+   sys) are what they were; unless the plan is a crash, so is everything in memory *)
+Theorem c03x_rejected_no_effect : forall x f sid content noecho, xwf x -> xaccepts sm x sid = false ->
+  exists code, 400 <= code /\
+    snd (xstep dr nr sm x (EBase f (OPub sid content noecho))) = [(sid, Ctrl code [])] /\
+    stores_same x (fst (xstep dr nr sm x (EBase f (OPub sid content noecho)))) /\
+    (is_crash f = false ->
+     fst (xstep dr nr sm x (EBase f (OPub sid content noecho))) = set_b (mkState (st (xb x)) (ca (xb x)) 0) x).
+Proof. exact (xreject_no_effect dr nr sm). Qed.
+
+(* while the hub is inside the store call of the owner's {del topic}: refused, whoever the author is *)
+Theorem c03x_being_deleted_refuses : forall x f sid content noecho, x_del x <> None ->
+  xstep dr nr sm x (EBase f (OPub sid content noecho)) =
+    (set_b (mkState (st (xb x)) (ca (xb x)) 0) x, [(sid, Ctrl (if x_attached x sid then 503 else 409) [])]).
+Proof. intros x f sid content noecho D. unfold xstep. destruct (x_del x); [reflexivity|congruence]. Qed.
+
+(* me / fnd: refused whether the session is attached or not; nothing changes because of the publish
+   (the only other thing that can complete on the way is a delete that was already in flight) *)
+Theorem c03x_self_topic_refuses : forall x sid content, exists code, 400 <= code /\
+  xstep dr nr sm x (EPubMe sid content) = (fst (del_finish x), snd (del_finish x) ++ [(sid, Ctrl code [])]).
+Proof. exact (xstep_pub_me dr nr sm). Qed.
+Theorem c03x_search_topic_refuses : forall x sid content, exists code, 400 <= code /\
+  xstep dr nr sm x (EPubFnd sid content) = (fst (del_finish x), snd (del_finish x) ++ [(sid, Ctrl code [])]).
+Proof. exact (xstep_pub_fnd dr nr sm). Qed.
+
+(* sys: any logged-in author, no attachment; the message gets the next number and is stored *)
+Theorem c03x_sys_accepts_without_attachment : forall x sid content, sess_uid sm sid <> 0%N -> sys_inv x ->
+  publish_sys sm x NoFault sid content =
+    (set_sys (x_sys_lastid x + 1) (x_sys_lastid x + 1)
+             (x_sys_msgs x ++ [mkMsg (x_sys_lastid x + 1) (sess_uid sm sid) content 0]) x,
+     [(sid, Ctrl 202 [(P_seq, x_sys_lastid x + 1)])]).
+Proof. exact (publish_sys_accepts sm). Qed.
+Theorem c03x_sys_failed_stores_nothing : forall x f sid content,
+  (exists n, snd (publish_sys sm x f sid content) = [(sid, Ctrl 202 [(P_seq, n)])]) \/
+  ((snd (publish_sys sm x f sid content) = [(sid, Ctrl 500 [])] \/ snd (publish_sys sm x f sid content) = []) /\
+   x_sys_msgs (fst (publish_sys sm x f sid content)) = x_sys_msgs x /\
+   st (xb (fst (publish_sys sm x f sid content))) = st (xb x) /\
+   (is_crash f = false -> x_sys_lastid (fst (publish_sys sm x f sid content)) = x_sys_lastid x /\
+                          xb (fst (publish_sys sm x f sid content)) = xb x)).
+Proof. exact (publish_sys_cases sm). Qed.
+
+(* suspension: the loaded topic of the suspended owner becomes read-only (and writable again on resume) *)
+Theorem c03x_suspension_marks_loaded_topic_partial : forall x u b c a,
+  ca (xb x) = Some c -> c_owner c = u -> alookup u (users (st (xb x))) = Some a -> memN u (x_susp x) = negb b ->
+  x_ro (suspend x NoFault u b) = b.
+Proof. exact suspend_marks. Qed.
 End C03.
 
 Print Assumptions c03_accepted_iff.
@@ -95,6 +163,16 @@ Print Assumptions c03_cache_is_store_partial.
 Print Assumptions c03_accepted_iff_stored.
 Print Assumptions c03_accepted_iff_stored_history.
 Print Assumptions c03_failed_change_keeps_decision.
+Print Assumptions c03x_accepted_iff.
+Print Assumptions c03x_reachable.
+Print Assumptions c03x_accepted_iff_history.
+Print Assumptions c03x_rejected_no_effect.
+Print Assumptions c03x_being_deleted_refuses.
+Print Assumptions c03x_self_topic_refuses.
+Print Assumptions c03x_search_topic_refuses.
+Print Assumptions c03x_sys_accepts_without_attachment.
+Print Assumptions c03x_sys_failed_stores_nothing.
+Print Assumptions c03x_suspension_marks_loaded_topic_partial.
 
 (* The full statement - the decision follows the STORED grant after EVERY history - is refuted by the
    faithful model (and replayed on the real code, findings/C03.md): *)
@@ -153,3 +231,21 @@ Example c03_ex_hypotheses_satisfiable :
   let x := fst (run (fun _ _ => None) (fun x => x) sm (mkState s0 None 0) [(NoFault, OSub 1 [] false); (NoFault, OSub 2 [] false)]) in
   accepts sm x 1 = true /\ accepts sm x 2 = false /\ accepts sm x 3 = false.
 Proof. vm_compute. repeat split. Qed.
+
+(* "The topic of a suspended owner is read-only" as a statement about every reachable state is refuted: the
+   read-only bit is a flag of the loaded Topic only, set by hub.topicsStateForUser when the {acc} arrives;
+   a topic loaded afterwards (first load, idle unload, restart) does not have it (findings/C03.md #3). *)
+Definition c03_suspension_survives_reload_statement : Prop :=
+  forall (sm : sessmap) s h, fresh s ->
+  let x := fst (xrun (fun _ _ => None) (fun r => r) sm (xinit s) h) in
+  match ca (xb x) with
+  | Some c => memN (c_owner c) (x_susp x) = true -> x_ro x = true
+  | None => True
+  end.
+Theorem c03_suspension_survives_reload_refuted : ~ c03_suspension_survives_reload_statement.
+Proof.
+  intros H. destruct c03_w_fresh1 as [F _].
+  specialize (H c03_w_sm c03_w_store [ESuspend NoFault 1%N true; EBase NoFault (OSub 2 [] false)] F).
+  vm_compute in H. specialize (H eq_refl). discriminate H.
+Qed.
+Print Assumptions c03_suspension_survives_reload_refuted.
